@@ -498,6 +498,28 @@ let op_lib (args : str list) : str list =
        | O3Scope -> ["scope"])
   | _ -> ["bad-args"]
 
+(* a library with TYPE blocks: "<hex text>" -> parsed <element> .. (one per type declaration / unit) | rejected | fuel | scope *)
+let sx_si (neg, v) = "i:" ^ (if neg then "-" else "") ^ dec_of_n v
+let sx_tdecl = function
+  | TdArray (n, rs, ty) -> "(array " ^ lname n ^ " (" ^ S.concat " " (List.map (fun (lo, hi) -> "(" ^ sx_si lo ^ " " ^ sx_si hi ^ ")") rs) ^ ") " ^ lname ty ^ ")"
+  | TdSubrange (n, ty, lo, hi, d) -> "(subrange " ^ lname n ^ " " ^ lname ty ^ " " ^ sx_si lo ^ " " ^ sx_si hi ^ " " ^ (match d with Some x -> sx_si x | None -> "-") ^ ")"
+  | TdEnum (n, vs, d) -> "(enum " ^ lname n ^ " (" ^ S.concat " " (List.map lname vs) ^ ") " ^ (match d with Some x -> lname x | None -> "-") ^ ")"
+  | TdEnumOf (n, b, v) -> "(enumof " ^ lname n ^ " " ^ lname b ^ " " ^ lname v ^ ")"
+  | TdSimple (n, ty, c) -> "(simple " ^ lname n ^ " " ^ lname ty ^ " " ^ sx_leaf c ^ ")"
+  | TdLate (n, b) -> "(late " ^ lname n ^ " " ^ lname b ^ ")"
+let op_lib2 (args : str list) : str list =
+  match args with
+  | [h] ->
+      (match parse_lib2_text (text_of_hex h) with
+       | O4Parsed es ->
+           "parsed" :: List.concat (List.map (function
+             | ETypes l -> List.map sx_tdecl l
+             | EUnit u -> ["(" ^ (match u.u_kind with UFb -> "fb" | UProgram -> "program") ^ " " ^ lname u.u_name ^ " " ^ sx_items u.u_decls ^ " " ^ sx_list u.u_body ^ ")"]) es)
+       | O4Rejected -> ["rejected"]
+       | O4Fuel -> ["fuel"]
+       | O4Scope -> ["scope"])
+  | _ -> ["bad-args"]
+
 (* renderer model with declarations: "<hex text>" -> the significant tokens the renderer model writes for the variables, the
    edge inputs and the statement list the parser model reads from the text | notparsed *)
 let op_fbdrender (args : str list) : str list =
@@ -518,7 +540,7 @@ let op_fbdrender (args : str list) : str list =
 
 let ops : (str * (str list -> str list)) list ref =
   ref [ ("lex", op_lex); ("semtok", op_semtok); ("decode", op_decode); ("lit", op_lit); ("cycle", op_cycle);
-        ("lsp", op_lsp); ("cli", op_cli); ("rule", op_rule); ("expr", op_expr); ("scope", op_scope); ("stmts", op_stmts); ("strender", op_strender); ("rules", op_rules); ("latebound", op_latebound); ("fbd", op_fbd); ("fbdrender", op_fbdrender); ("lib", op_lib) ]
+        ("lsp", op_lsp); ("cli", op_cli); ("rule", op_rule); ("expr", op_expr); ("scope", op_scope); ("stmts", op_stmts); ("strender", op_strender); ("rules", op_rules); ("latebound", op_latebound); ("fbd", op_fbd); ("fbdrender", op_fbdrender); ("lib", op_lib); ("lib2", op_lib2) ]
 
 
 let () =
